@@ -391,7 +391,7 @@ Proof.
   destruct (is_oneof_wrapper m) eqn:Ew.
   - inversion H; subst st1 r. split; [exact HIa|]. unfold root_from. cbn [root_is_enum root_is_oneof root_props negb].
     rewrite Ew, Hps. reflexivity.
-  - destruct (flatten_cycle sta (msg_key m) ps); [discriminate|].
+  - destruct (flatten_cycle sta (msg_key m) ps) as [[|]|]; try discriminate.
     destruct (find_psm D m) as [ent|cls]; cbn [lift obind] in H; [|discriminate].
     inversion H; subst st1 r. split; [exact HIa|]. unfold root_from. cbn [root_is_enum root_is_oneof root_props negb].
     rewrite Ew, Hps. reflexivity.
